@@ -353,7 +353,7 @@ func c06RunScript(sc *c06Script) (fail string, outcome string) {
 		if ref.HasName {
 			return fmt.Sprintf("MUST FIND: the CRYPTO stream is a complete well-formed ClientHello carrying %q (version %#x, %d datagrams); nothing found", ref.Name, sc.Version, len(sc.Datagrams)), ""
 		}
-		if needMoreAtEnd && !vkKnown("F-C06-3") {
+		if needMoreAtEnd && !vkKnown("F-C06-3") && !(ref.NoExt && vkKnown("F-C06-4")) {
 			return "WITHHELD: complete ClientHello without a name, NeedMore() stays true", ""
 		}
 		return "", "complete_no_name"
